@@ -6,6 +6,16 @@ LIBS = {
 }
 
 PROPS = {
+    "C03": {
+        "groups": [{"name": "C03", "quick": 1600, "thorough": 40000, "workers": 8}],
+        "rule": "status / Content-Type / Location lines and header blocks from a grammar with mutations (case, blanks, CR, missing newline, odd versions and codes); worlds of 1..4 documents and 0..25 redirects over five loopback TLS hosts (relative and cross-host Locations, non-https hops, missing/unparsable Location, self loops and cycles, chains around the budget of 20, odd status lines, content types, bodies) x sequences of 1..8 fetches (cache warm-up); "
+                "compared: result class, source, stamp, and the exact request sequence the simulator saw; non-trivial = at least two connections were opened; distinct by op content",
+        "trusted": ["crypto/tls, net (the simulator is reached through the unmodified jtp.Get; CA via SSL_CERT_FILE)",
+                    "url.Parse / ResolveReference and json.Decoder as oracle tables computed by the real libraries per world (model parameters `Env.resolve`, `Env.decode`)",
+                    "golang-lru eviction order as modelled (`Cache.get`/`Cache.add`); the transparency theorem does not depend on it (any sound cache)",
+                    LIBS["regexp"]],
+        "assumptions": ["servers unchanged between fetches (the `Env` is fixed)"],
+    },
     "C10": {
         "groups": [{"name": "C10", "quick": 4000, "thorough": 150000}],
         "rule": "page chains of 0..18 embedded pages (Collection/OrderedCollection, items on the root and/or pages, empty pages with varying bias, absent/null/single-value items, wrong page types, chains ending in a non-https reference, a non-object, a non-collection or an object that would need re-fetching) x request-size sequences (one large request, constant small requests, random sizes incl. 0) x start offsets; "
@@ -84,6 +94,12 @@ PROPS = {
 # Texts for MANIFEST.json (checks/gen_manifest.py)
 
 MANIFEST_TEXT = {
+    "C03": {
+        "text": "Lean theorems for all response byte strings, worlds, budgets and caches: an exchange yields a document iff the status is 200-203, at least one Content-Type line is present, every Content-Type line names a tolerated type, the header block is terminated; a fetch succeeds only along a chain of https hops within the budget whose last response is such a document, source = URL of that response, at most budget+1 requests; every sound cache (any eviction) is transparent: same result as with an empty cache. Tied to jtp.go by differential correspondence on the recognisers and on jtp.Get against a loopback TLS simulator, request log included.",
+        "design_ref": "DESIGN.md §5 C03",
+        "note": "Trusted: Lean kernel; correspondence check (testing); TLS/net; url and json libraries as oracle tables; LRU order as modelled.",
+        "technique": "Lean 4 proof (structural recursion on the redirect budget, cache soundness invariant) + differential correspondence against a TLS simulator",
+    },
     "C10": {
         "text": "Lean theorems for every page chain given by an arbitrary load function (cyclic and endless chains included) and all request sizes and offsets: bounded number of pages visited; the delivery is a prefix of the true sequence followed by at most one error item; a continuation means exactly the requested amount; harvesting n1 then n2 equals harvesting n1+n2; an empty continuation without error only at a clean end with everything delivered; refusal only after more than three consecutive empty pages. Termination itself is the well-founded measure of the model. Tied to collection.go by differential correspondence on generated embedded chains; the prefix predicate is evaluated on every implementation output.",
         "design_ref": "DESIGN.md §5 C10",
